@@ -94,7 +94,7 @@ def run(tier, seed):
     common.build_mmdump()
     common.build_mmdump(debug=True)
     mirs = common.prog_mirs()
-    files = common.corpus_files(['cl', 'fx', 'sc'])
+    files = common.corpus_files(['cl', 'fi', 'fx', 'sc'])
     files = [f for f in files if os.path.basename(f).startswith(('sc_', 'scheduler', 'cl_', 'closure', 'hof', 'box', 'enum', 'generic', 'placeholder', 'recursion', 'parameter_pack', 'record', 'pipe', 'loopcounter'))]
     N = 3 if quick else 6
     budget = 90 if quick else 400
